@@ -8,6 +8,7 @@ import (
 	"runtime"
 	"sort"
 	"strings"
+	"sync"
 	"time"
 
 	"github.com/smallnest/rpcx/client"
@@ -217,9 +218,120 @@ func c14Shared(o *Out, r *rand.Rand) {
 	}
 }
 
+// c14Churn: clients that share one discovery come and go while updates are published.  Closing one
+// client (its watcher is removed from the discovery, in a goroutine of its own) concurrently with the
+// fan-out of an update must not make any OTHER, still running client miss that update.
+func c14Churn(o *Out, r *rand.Rand) {
+	rounds, nClients := 2, 250
+	if thorough() {
+		rounds, nClients = 6, 400
+	}
+	for round := 0; round < rounds; round++ {
+		sc := &fakeScenario{perAddr: map[string]fakeOutcome{}}
+		for i := 0; i < 400000; i++ {
+			sc.dials = append(sc.dials, true)
+		}
+		setScenario(sc)
+		d, _ := client.NewMultipleServersDiscovery([]*client.KVPair{{Key: "fake@seed"}})
+		opt := client.DefaultOption
+		opt.Retries = 0
+		var xcs []client.XClient
+		for k := 0; k < nClients; k++ {
+			xcs = append(xcs, client.NewXClient("Svc", client.Failfast, client.RoundRobin, d, opt))
+		}
+		trials := 60
+		if thorough() {
+			trials = 150
+		}
+		closed := 0
+		ops := []string{}
+		for k := 0; k < nClients; k++ {
+			ops = append(ops, fmt.Sprintf("w%d", k))
+		}
+		lastT := -1
+		for t := 0; t < trials && closed < nClients-40; t++ {
+			addr := fmt.Sprintf("fake@churn%d-%d", round, t)
+			// close a few clients from the front of the watcher list while the update fans out
+			k := 1 + r.Intn(3)
+			spin := r.Intn(200)
+			var wg sync.WaitGroup
+			wg.Add(2)
+			go func() {
+				defer wg.Done()
+				d.Update([]*client.KVPair{{Key: addr}})
+			}()
+			go func(from, k int) {
+				defer wg.Done()
+				for i := 0; i < spin; i++ {
+					runtime.Gosched()
+				}
+				for i := from; i < from+k; i++ {
+					xcs[i].Close()
+				}
+			}(closed, k)
+			wg.Wait()
+			ops = append(ops, fmt.Sprintf("p%d", t))
+			for i := closed; i < closed+k; i++ {
+				ops = append(ops, fmt.Sprintf("r%d", i))
+			}
+			closed += k
+			lastT = t
+			o.Eval(fmt.Sprintf("churn round=%d trial=%d clients=%d closed=%d", round, t, nClients, closed), true)
+			o.Count("churn.trials")
+			// every client that is still open must reach the newly published server (re-observed for up to 2 s)
+			stale := -1
+			staleAddr := ""
+			for deadline := time.Now().Add(2 * time.Second); ; {
+				stale = -1
+				for ci := closed; ci < nClients; ci++ {
+					reply := &fakeReply{}
+					err := xcs[ci].Call(context.Background(), "M", 0, reply)
+					if err != nil || reply.Addr != addr {
+						stale, staleAddr = ci, reply.Addr
+						if err != nil {
+							staleAddr = "error: " + err.Error()
+						}
+						break
+					}
+				}
+				if stale < 0 || time.Now().After(deadline) {
+					break
+				}
+				time.Sleep(20 * time.Millisecond)
+			}
+			if stale >= 0 {
+				o.Violate("c14.churn.missed-update", fmt.Sprintf("%d clients share one discovery; clients %d..%d were closed while an update to [%s] was published: open client %d never switched to it (still %s)",
+					nClients, closed-k, closed-1, addr, stale, staleAddr),
+					map[string]any{"clients_sharing_one_discovery": nClients, "trial": t, "closed_during_update": []int{closed - k, closed - 1}, "published": addr, "stale_client": stale, "still_selects": staleAddr})
+				for ci := closed; ci < nClients; ci++ {
+					xcs[ci].Close()
+				}
+				return
+			}
+		}
+		// the whole round against the model of one discovery with many watchers (Disc.hubRun,
+		// theorem hub_converges): what every still-open client selects after the last trial
+		var obs []string
+		for ci := closed; ci < nClients; ci++ {
+			reply := &fakeReply{}
+			x := "-"
+			if err := xcs[ci].Call(context.Background(), "M", 0, reply); err == nil {
+				x = strings.TrimPrefix(reply.Addr, fmt.Sprintf("fake@churn%d-", round))
+			}
+			obs = append(obs, fmt.Sprintf("%d=%s", ci, x))
+		}
+		_ = lastT
+		o.SpecCase("hub 10 "+strings.Join(ops, " ")+" A", strings.Join(obs, " "), true)
+		for ci := closed; ci < nClients; ci++ {
+			xcs[ci].Close()
+		}
+	}
+}
+
 func runC14(o *Out, r *rand.Rand) {
 	c14Filter(o, r)
 	c14Shared(o, r)
+	c14Churn(o, r)
 	n := 40
 	if thorough() {
 		n = 400
